@@ -400,6 +400,85 @@ func run(c *core.Child) {
 	if only == "" || only == "family" {
 		k.family()
 		k.exclusiveFamily()
+		k.shapeLattice()
+	}
+}
+
+// shapeLattice: one response key, two mutually exclusive parents (Dog / Cat)
+// and every ordered pair of result types out of a lattice of wrappers around
+// a scalar, another scalar, an enum and an object: the response shapes agree
+// only for identical wrappers around identical leaves (or around composite
+// types whose sub-selections agree). Also the same pairs under ONE parent,
+// where different field names conflict whatever their types.
+func (k *ck) shapeLattice() {
+	c := k.c
+	N, NN, L := model.Named, model.NonNull, model.ListOf
+	leafs := []*model.TypeRef{N("Int"), N("String"), N("Color"), N("Person")}
+	var types []*model.TypeRef
+	for _, l := range leafs {
+		types = append(types, l, NN(l), L(l), L(NN(l)), NN(L(l)), L(L(l)))
+	}
+	var fields []*model.FieldDef
+	for i, t := range types {
+		fields = append(fields, &model.FieldDef{Name: fmt.Sprintf("v%d", i), Type: t})
+	}
+	person := &model.TypeDef{Kind: model.Object, Name: "Person", Fields: []*model.FieldDef{{Name: "name", Type: N("String")}, {Name: "age", Type: N("Int")}}}
+	m := &model.Schema{Query: "Q", Types: []*model.TypeDef{person,
+		{Kind: model.Enum, Name: "Color", Values: []*model.EnumVal{{Name: "RED", Internal: "RED"}, {Name: "BLUE", Internal: "BLUE"}}},
+		{Kind: model.Interface, Name: "Pet", Fields: []*model.FieldDef{{Name: "v0", Type: N("Int")}}},
+		{Kind: model.Object, Name: "Dog", Interfaces: []string{"Pet"}, Fields: fields},
+		{Kind: model.Object, Name: "Cat", Interfaces: []string{"Pet"}, Fields: fields},
+		{Kind: model.Object, Name: "Q", Fields: []*model.FieldDef{{Name: "pet", Type: N("Pet")}}},
+	}, Extra: []string{"Dog", "Cat"}}
+	m.Reindex()
+	env, err := build.Build(m, 97)
+	if err != nil {
+		if c.Begin("lattice/build") {
+			c.Violation("harness:schema-build", err.Error(), nil)
+		}
+		return
+	}
+	sel := func(i int, sub string) string {
+		if types[i].Base() == "Person" {
+			return fmt.Sprintf("k: v%d { %s }", i, sub)
+		}
+		return fmt.Sprintf("k: v%d", i)
+	}
+	idx := 0
+	for i := range types {
+		for j := range types {
+			for variant := 0; variant < 4; variant++ {
+				idx++
+				if idx%c.NBatches != c.Batch {
+					continue
+				}
+				id := fmt.Sprintf("lattice/%d/%d/%d", i, j, variant)
+				if !c.Begin(id) {
+					continue
+				}
+				var text string
+				switch variant {
+				case 0: // exclusive parents
+					text = fmt.Sprintf("{ pet { ... on Dog { %s } ... on Cat { %s } } }", sel(i, "name"), sel(j, "name"))
+				case 1: // exclusive parents, the second side inside a named fragment, differing sub-selections
+					text = fmt.Sprintf("{ pet { ... on Dog { %s } ...F } } fragment F on Cat { %s }", sel(i, "name"), sel(j, "n: name"))
+				case 2: // same parent
+					text = fmt.Sprintf("{ pet { ... on Dog { %s } ... on Dog { %s } } }", sel(i, "name"), sel(j, "name"))
+				default: // exclusive parents, sub-selections that conflict in shape (String vs Int under one key)
+					text = fmt.Sprintf("{ pet { ... on Dog { %s } ... on Cat { %s } } }", sel(i, "x: name"), sel(j, "x: age"))
+				}
+				doc, perr := syntax.Parse([]byte(text))
+				if perr != nil {
+					c.Violation("harness:family-text", "shape-lattice text rejected by the reference parser: "+perr.Msg, text)
+					continue
+				}
+				res := k.evaluate(&Case{Env: env, Doc: doc, Text: text, Origin: "shape-lattice"})
+				c.Feature("shape-lattice")
+				if res != nil && res[validate.OverlappingFieldsCanBeMerged].Must {
+					c.Feature("shape-lattice:overlap-conflict")
+				}
+			}
+		}
 	}
 }
 
